@@ -203,15 +203,25 @@ Theorem C17_text_roundtrip : forall x base uo, wf x -> 2 <= base <= 36 ->
 Proof. exact frombase_tobase. Qed.
 Print Assumptions C17_text_roundtrip.
 
-(* bn.lua: integer literals [-]0b<digits>, [-]0x<digits>, [+-]<decimal digits> *)
+(* bn.lua: integer literals [-]0b<digits>, [-]0x<digits>, decimal digits.
+   Decimal (as repaired in /repo by "fix: decimal integer literals that do not fit the compiler's big numbers are
+   read as floats"): the reader keeps the parsed big number n only if todecint(n) equals the digits read with
+   leading zeros removed (Model3.bn_from_dec mirrors that test); the theorem characterises the test exactly:
+   below 2^(BITS-1) the literal is an exact integer (no reduction mod 2^BITS happens), from there on it is read
+   as a float (LFloat; the float value is C14's concern).  A string with an explicit sign is not subject to the
+   test (the compiler's lexer never produces one) and is reduced mod 2^BITS. *)
 Theorem C17_literal_exact :
   (forall neg cs, Forall (char_ok 2) cs ->
      exists x, bn_from_bin neg cs = Ok x /\ wf x /\ uval x = ((if neg then -1 else 1) * dval 2 (map cval cs)) mod 2 ^ BINT_BITS) /\
   (forall neg cs, cs <> [] -> Forall (char_ok 16) cs ->
      exists x, bn_from_hex neg cs = Ok x /\ wf x /\ uval x = ((if neg then -1 else 1) * dval 16 (map cval cs)) mod 2 ^ BINT_BITS) /\
-  (forall sg cs, sign_ok sg -> cs <> [] -> Forall (char_ok 10) cs ->
-     exists x, bn_from_dec (sg ++ cs) = Ok x /\ wf x /\ uval x = (sign_val sg * dval 10 (map cval cs)) mod 2 ^ BINT_BITS).
-Proof. exact (conj from_bin_correct (conj from_hex_correct from_dec_correct)). Qed.
+  (forall cs, cs <> [] -> Forall (char_ok 10) cs ->
+     let v := dval 10 (map cval cs) in
+     (v < 2 ^ BINT_BITS / 2 -> exists x, bn_from_dec cs = Ok (LInt x) /\ wf x /\ uval x = v /\ sval x = v) /\
+     (2 ^ BINT_BITS / 2 <= v -> bn_from_dec cs = Ok LFloat)) /\
+  (forall sg cs, sg = [45] \/ sg = [43] -> cs <> [] -> Forall (char_ok 10) cs ->
+     exists x, bn_from_dec (sg ++ cs) = Ok (LInt x) /\ wf x /\ uval x = (sign_val sg * dval 10 (map cval cs)) mod 2 ^ BINT_BITS).
+Proof. exact (conj from_bin_correct (conj from_hex_correct (conj from_dec_unsigned from_dec_signed))). Qed.
 Print Assumptions C17_literal_exact.
 
 (* bn.lua: todecint / tohexint / tobinint (bits = nil or a Lua integer: wrap to that many bits first) *)
